@@ -389,8 +389,9 @@ class CylindricalSymGrid(GridBase):
             yield point
 
         if not only_periodic or self._periodic_z:
-            yield point - np.array([self.length, 0, 0])
-            yield point + np.array([self.length, 0, 0])
+            # the periodic axial direction is the third Cartesian coordinate
+            yield point - np.array([0, 0, self.length])
+            yield point + np.array([0, 0, self.length])
 
     @cached_property()
     def cell_volume_data(self) -> tuple[NumericArray, float]:
